@@ -9,6 +9,7 @@ import (
 	"sort"
 	"strconv"
 	"strings"
+	"sync/atomic"
 	"time"
 )
 
@@ -184,6 +185,11 @@ func main() {
 	known := map[string]int{}
 	for k, n := range vd.KnownSeen {
 		known[k] = n
+	}
+	mv := map[string]int64{}
+	modelVerdicts.Range(func(k, v interface{}) bool { mv[k.(string)] = atomic.LoadInt64(v.(*int64)); return true })
+	if len(mv) > 0 {
+		res.Coverage["reference_model_verdicts"] = mv
 	}
 	res.Coverage["known_findings_observed"] = known
 	res.Coverage["violation_instances"] = len(res.Violations)
